@@ -488,7 +488,7 @@ def own_stage(want, trace, req):
 
 def C01(tier, seed):
     st = mean_stage("c01", "C01", arith_req("C01") + ["C01.call_styles_agree", "C01.constant_sample", "C01.style.ci", "C01.style.extend",
-                                                    "C01.style.append", "C01.style.meanci", "C01.zero_observation", "C01.squares_overflow"], 40 if tier == "quick" else 400)
+                                                    "C01.style.append", "C01.style.meanci", "C01.zero_observation", "C01.squares_overflow", "C01.count_beyond_32_bits"], 40 if tier == "quick" else 400)
     st.mc = list(TABLES_MC)
     own = own_stage("M", "Trace_Hook", ["C01.own_tests_kind", "C01.own_tests_bound"])
     return {
@@ -511,7 +511,7 @@ def c06_designed():
 
 
 def C06(tier, seed):
-    st = mean_stage("c06", "C06", arith_req("C06") + ["C04.unpaired_small_dof_large_population", "C06.even_dof_closed_form", "C06.extreme_level.upper", "C06.off_grid_level.two", "C06.off_grid_level.lower"], 0)
+    st = mean_stage("c06", "C06", arith_req("C06") + ["C04.unpaired_small_dof_large_population", "C06.even_dof_closed_form", "C06.count_beyond_32_bits", "C06.extreme_level.upper", "C06.off_grid_level.two", "C06.off_grid_level.lower"], 0)
     st.adopt = {"C04.unpaired_bound", "C04.shape", "C04.domain", "C04.exchange_mirrors"}    # the critical value of the unpaired comparison at a small effective dof
     # even-dof rows of the t table certified from the algebraic closed form of the distribution function
     st.mc = list(TABLES_MC) + [("MC_TCert", "MC_TCert.cfg", {"TCERT_MAX": 80 if tier == "quick" else 300}, 4)]
